@@ -103,6 +103,9 @@ _md5_ctx_mgr_submit_base(ISAL_MD5_HASH_CTX_MGR *mgr, ISAL_MD5_HASH_CTX *ctx, con
                 return ctx;
         }
 
+        // A valid call: do not report the error of an earlier, rejected one
+        ctx->error = ISAL_HASH_CTX_ERROR_NONE;
+
         if (flags == ISAL_HASH_FIRST) {
 
                 md5_init(ctx, buffer, len);
